@@ -120,6 +120,16 @@ def gen_case(rng, cid, families=None, kinds=('mh', 'pt'), allow_saveload=True,
             kw.pop('componentwise', None)
     c.blobs = rng.random() < 0.4
     c.model_kind = rng.choice(['quad', 'quad', 'slope', 'flat'])
+    # nothing may depend on the ORDER in which parameters and proposals are listed: in half of the
+    # cases the sampler's parameter list, the list of proposals and each proposal's own parameter
+    # list are in unrelated orders (values are paired by NAME everywhere in the protocol)
+    orng = random.Random(c.seed ^ 0x0D0E)
+    if orng.random() < 0.5:
+        orng.shuffle(c.params)
+        orng.shuffle(c.props)
+        for fam, names, _ in c.props:
+            if F.FAMILIES[fam][1] != 'sphere':      # (azimuth, polar) is a positional pair
+                orng.shuffle(names)
     # ops
     nops = rng.randint(2, max_ops)
     for _ in range(nops):
